@@ -19,12 +19,56 @@ func opt(t byte, l int, body []byte) []byte {
 	return b
 }
 
+// Value domain of address-like fields: besides device-like values every MAC-valued field takes the
+// all-zero, broadcast, multicast (IPv4 and IPv6 mapping), our own, the IPv4 router's (= the Ethernet
+// source of the `ra` cases) MAC, and every IPv6-address field takes ::, ::1, all-ones, IPv4-mapped,
+// multicast, link-local, global and ULA addresses.
+func specialMAC(rng *lib.Rand) []byte {
+	switch rng.Intn(8) {
+	case 0:
+		return []byte{0, 0, 0, 0, 0, 0}
+	case 1:
+		return []byte{0xff, 0xff, 0xff, 0xff, 0xff, 0xff}
+	case 2:
+		return []byte{0x01, 0x00, 0x5e, 0x01, 0x02, 0x03}
+	case 3:
+		return []byte{0x33, 0x33, 0x00, 0x00, 0x00, 0x01}
+	case 4:
+		return append([]byte{}, lib.HostMAC...) // our own
+	case 5:
+		return append([]byte{}, lib.RouterMAC...) // the IPv4 router's = Ethernet source of the ra cases
+	case 6:
+		return []byte{0x00, 0x77, 0x77, 0x77, 0x77, 0x77}
+	}
+	return []byte{0x02, rng.Byte(), rng.Byte(), rng.Byte(), rng.Byte(), rng.Byte()}
+}
+
+var specialIP6s = [][]byte{
+	make([]byte, 16), // ::
+	{0, 0, 0, 0, 0, 0, 0, 0, 0, 0, 0, 0, 0, 0, 0, 1},                                     // ::1
+	{0xff, 0xff, 0xff, 0xff, 0xff, 0xff, 0xff, 0xff, 0xff, 0xff, 0xff, 0xff, 0xff, 0xff, 0xff, 0xff}, // all ones
+	{0, 0, 0, 0, 0, 0, 0, 0, 0, 0, 0xff, 0xff, 192, 168, 0, 1},                            // ::ffff:192.168.0.1
+	{0xff, 0x02, 0, 0, 0, 0, 0, 0, 0, 0, 0, 0, 0, 0, 0, 1},                                // ff02::1
+	{0xfe, 0x80, 0, 0, 0, 0, 0, 0, 0, 0, 0, 0, 0, 0, 0, 1},                                // fe80::1
+	{0x20, 0x01, 0x0d, 0xb8, 0, 0, 0, 0, 0, 0, 0, 0, 0, 0, 0, 1},                          // 2001:db8::1
+	{0xfd, 0, 0, 0, 0, 0, 0, 0, 0, 0, 0, 0, 0, 0, 0, 1},                                   // fd00::1 (ULA)
+}
+
+func specialIP6(rng *lib.Rand) []byte {
+	if rng.Chance(15) {
+		return rng.Bytes(16)
+	}
+	return append([]byte{}, specialIP6s[rng.Intn(len(specialIP6s))]...)
+}
+
 func pick32(rng *lib.Rand) uint32 {
-	switch rng.Intn(6) {
+	switch rng.Intn(7) {
 	case 0:
 		return 0
 	case 1:
 		return 0xffffffff
+	case 6:
+		return 1
 	case 2:
 		return uint32(rng.Intn(100000))
 	case 3:
@@ -38,12 +82,19 @@ func optSLLA(rng *lib.Rand, t byte) []byte {
 	if rng.Chance(6) {
 		l = 2
 	}
+	if l == 1 && rng.Chance(60) {
+		return opt(t, 1, specialMAC(rng))
+	}
 	return opt(t, l, rng.Bytes(8*l-2))
 }
 
 func optMTU(rng *lib.Rand) []byte {
 	var mtu uint32
-	switch rng.Intn(8) {
+	switch rng.Intn(10) {
+	case 8:
+		mtu = 1279
+	case 9:
+		mtu = 0xffffffff
 	case 0:
 		mtu = 0
 	case 1:
@@ -72,7 +123,7 @@ func optMTU(rng *lib.Rand) []byte {
 	return opt(5, l, append(res, be32b(mtu)...))
 }
 
-var plens = []int{0, 1, 7, 8, 9, 15, 16, 32, 47, 48, 56, 60, 63, 64, 65, 71, 72, 96, 120, 121, 127, 128}
+var plens = []int{0, 1, 1, 7, 8, 9, 15, 16, 32, 47, 48, 56, 60, 63, 63, 64, 64, 65, 65, 71, 72, 96, 120, 121, 127, 127, 128, 128}
 
 func optPrefix(rng *lib.Rand) []byte {
 	pl := plens[rng.Intn(len(plens))]
@@ -105,10 +156,8 @@ func optPrefix(rng *lib.Rand) []byte {
 	if rng.Chance(30) {
 		copy(pfx, []byte{0x20, 0x01, 0x0d, 0xb8})
 	}
-	if rng.Chance(15) {
-		for i := range pfx {
-			pfx[i] = 0xff
-		}
+	if rng.Chance(40) {
+		pfx = specialIP6(rng)
 	}
 	body = append(body, pfx...)
 	l := 4
@@ -144,10 +193,8 @@ func optRoute(rng *lib.Rand) []byte {
 	body := []byte{byte(pl), prf}
 	body = append(body, be32b(pick32(rng))...)
 	pfx := rng.Bytes(16)
-	if rng.Chance(25) {
-		for i := range pfx {
-			pfx[i] = 0xff
-		}
+	if rng.Chance(35) {
+		pfx = specialIP6(rng)
 	}
 	if rng.Chance(25) { // well-formed sender: bits after the prefix length are zero
 		for i := range pfx {
@@ -174,7 +221,13 @@ func optRDNSS(rng *lib.Rand) []byte {
 		body = rng.Bytes(2)
 	}
 	body = append(body, be32b(pick32(rng))...)
-	body = append(body, rng.Bytes(16*n+16)...)
+	for i := 0; i <= n; i++ {
+		if rng.Chance(45) {
+			body = append(body, specialIP6(rng)...)
+		} else {
+			body = append(body, rng.Bytes(16)...)
+		}
+	}
 	return opt(25, l, body)
 }
 
@@ -420,6 +473,13 @@ func directedRAs() [][]byte {
 		mkRA(64, 0, 1800, 0, 0, optD(600, long...)),                                                                         // dnssl-long
 		mkRA(64, 0, 1800, 0, 0, opt(14, 1, []byte{1, 2, 3, 4, 5, 6}), opt(1, 1, mac), opt(253, 2, nil)),                   // unknown types skipped
 		mkRA(64, 0, 1800, 0, 0, opt(1, 1, mac), opt(1, 1, []byte{1, 2, 3, 4, 5, 6})),                                       // repeated SLLA
+		mkRA(64, 0, 1800, 0, 0, opt(1, 1, []byte{0, 0, 0, 0, 0, 0})),                                                       // SLLA present but all-zero: recorded as advertised
+		mkRA(64, 0, 1800, 0, 0, opt(1, 1, []byte{0xff, 0xff, 0xff, 0xff, 0xff, 0xff})),                                     // SLLA broadcast
+		mkRA(64, 0, 1800, 0, 0, opt(1, 1, []byte{0x33, 0x33, 0, 0, 0, 1})),                                                 // SLLA multicast
+		mkRA(64, 0, 1800, 0, 0, opt(1, 1, lib.HostMAC)),                                                                    // SLLA = our own MAC
+		mkRA(64, 0, 1800, 0, 0, opt(1, 1, lib.RouterMAC)),                                                                  // SLLA = Ethernet source
+		mkRA(0, 0x10, 0, 0, 0xffffffff, opt(5, 1, []byte{0, 0, 0, 0, 4, 0xff}), optP(128, 0xc0, 0xffffffff, 1, specialIP6s[2]...)), // hop 0, reserved preference, MTU 1279, /128 all-ones
+		mkRA(255, 0, 65535, 1, 1, opt(5, 1, []byte{0, 0, 0xff, 0xff, 0xff, 0xff}), optP(0, 0, 0, 0), optP(1, 0, 1, 1, 0xff), optP(127, 0, 0, 0, specialIP6s[2]...), optS(0, specialIP6s[0], specialIP6s[3])),
 		mkRA(64, 0, 1800, 0, 0, opt(1, 1, mac), []byte{31, 0, 0, 0, 0, 0, 0, 0}),                                            // zero-length option: rejected
 		mkRA(64, 0, 1800, 0, 0, optS(600, s1), opt(25, 2, []byte{0, 0, 0, 0, 0, 9})),                                       // malformed RDNSS after a good one (was: lifetime overwritten)
 		mkRA(64, 0, 1800, 0, 0, optS(600, s1), opt(25, 4, append([]byte{0, 0, 0, 0, 0, 9}, s2...))),                        // RDNSS of even length
